@@ -126,7 +126,87 @@ def tag(v, depth=0):
     return type(v).__name__
 
 
-def make_class(name, log, mode, base=None, missing=()):
+# ----------------------------------------------------------------------------------------------------------
+# the proxy's own vocabulary (names SandboxResult itself uses), read from the tree under test
+
+_VOCAB = None
+SUPPLEMENT = ["report", "call_id", "context", "result", "data", "name", "target", "output"]   # plausible pedal-ish names
+
+
+def _cores(names):
+    out = []
+    for n in names:
+        c = n.strip("_")
+        if c and c not in out:
+            out.append(c)
+    return out
+
+
+def proxy_vocabulary():
+    """-> {"tier1": names the proxy tests / fetches by name or may assign (string constants that are identifiers,
+    ASSIGNABLE_ATTRS, non-protocol attribute names of the module's AST), "tier2": constructor / method parameter names,
+    class-level and module-level names, a few supplementary names, "variants": underscore / dunder-ish spellings of
+    the tier-1 names, "private": the underscore-prefixed ones (the proxy's reserved identification names)}.
+    Protocol dunders (names every class has, and the dunder METHODS SandboxResult defines) are not attribute
+    vocabulary: student classes defining those are the ordinary generated classes."""
+    global _VOCAB
+    if _VOCAB is not None:
+        return _VOCAB
+    import ast
+    consts, attrs, params = [], [], []
+    try:
+        tree = ast.parse(inspect.getsource(result_mod))
+    except (OSError, TypeError, SyntaxError):
+        tree = ast.Module(body=[], type_ignores=[])
+    for n in ast.walk(tree):
+        if isinstance(n, ast.Constant) and isinstance(n.value, str) and n.value.isidentifier():
+            consts.append(n.value)
+        elif isinstance(n, ast.Attribute):
+            attrs.append(n.attr)
+        elif isinstance(n, ast.arg):
+            params.append(n.arg)
+    everyone = set(dir(type("X", (), {})))
+
+    def protocol(name):
+        if not (name.startswith("__") and name.endswith("__")):
+            return False
+        return name in everyone or name in ALL_DUNDERS or callable(getattr(SR, name, None))
+    tier1 = []
+    assignable = getattr(SR, "ASSIGNABLE_ATTRS", ())
+    for n in list(assignable if isinstance(assignable, (list, tuple, set, frozenset)) else ()) + consts + attrs:
+        if isinstance(n, str) and n.isidentifier() and (not protocol(n) or n == "__class__") and n not in tier1 \
+                and n not in vars(math):
+            tier1.append(n)
+    tier1 = sorted(set(tier1))
+    tier2 = []
+    classnames = [k for klass in SR.__mro__[:-1] for k in klass.__dict__]
+    modnames = [k for k, v in vars(result_mod).items() if inspect.isfunction(v) or inspect.isclass(v)]
+    for n in params + classnames + modnames + SUPPLEMENT:
+        if n not in ("self", "cls") and n.isidentifier() and not protocol(n) and n not in tier1 and n not in tier2:
+            tier2.append(n)
+    variants = []
+    for c in _cores([n for n in tier1 if n != "__class__"]):
+        for v in (c, "_" + c, "__%s__" % c, "_%s_" % c, c + "_", "__" + c):
+            if v not in tier1 and v not in variants and v not in tier2 and not protocol(v):
+                variants.append(v)
+    names = [n for n in tier1 if n != "__class__"]
+    _VOCAB = {"tier1": names, "tier2": sorted(tier2), "variants": variants,
+              "private": [n for n in names + tier2 + variants if n.startswith("_")],
+              "class_override": "__class__" in tier1}
+    return _VOCAB
+
+
+def colliding_names(plain_operand=False):
+    """Attribute names an instrumented operand carries.  A PLAIN (unproxied) other operand carries the public ones only:
+    an object that answers the proxy's reserved underscore names is indistinguishable from a proxy by design."""
+    v = proxy_vocabulary()
+    names = v["tier1"] + v["tier2"] + v["variants"]
+    if plain_operand:
+        names = [n for n in names if not n.startswith("_")]
+    return tuple(names)
+
+
+def make_class(name, log, mode, base=None, missing=(), collide=()):
     """A class all of whose family dunders record themselves in `log`."""
     def answer(d):
         if mode == "raise":
@@ -157,9 +237,24 @@ def make_class(name, log, mode, base=None, missing=()):
             return good()
         return m
 
+    decoy_cls = []
+
     def init(self, t):
         self.tag = t
-    ns = {"__init__": init, "_probe_tagged": True}
+        if collide:
+            # attributes named like the proxy's own vocabulary, each an instrumented DECOY: a method that reads
+            # `self.value` & co. from the student's object instead of the proxy ends up applying the operation to
+            # the decoy (logged with receiver "<tag>.<name>"), which no forwarding plan does
+            if not decoy_cls:
+                decoy_cls.append(make_class(name + "Decoy", log, mode))
+            for n in collide:
+                object.__setattr__(self, n, decoy_cls[0]("%s.%s" % (t, n)))
+
+    def called(self, *a, **k):
+        log.entries.append(("__call__", self.tag, tuple(tag(x) for x in a)))
+        answer("__call__")
+        return Tok(log)
+    ns = {"__init__": init, "_probe_tagged": True, "__call__": called}
     for d in BINARY_DUNDERS:
         ns[d] = binary(d)
     for d in FREE_UNARY:
@@ -254,9 +349,11 @@ def observe(call, name, sc):
     log = Log()
     mode = sc.mode if sc.mode in ("accept", "decline", "raise") else "accept"
     missing = (sc.mode.split(":", 1)[1],) if sc.mode.startswith("missing:") else ()
-    cls_s = make_class("RecS", log, mode, missing=missing)
-    cls_o = make_class("RecO", log, mode, base=cls_s if sc.mode == "subclass" else None)
-    cls_k = make_class("RecK", log, mode)
+    # every operand carries attributes named like the proxy's own vocabulary (see make_class / colliding_names)
+    cls_s = make_class("RecS", log, mode, missing=missing, collide=colliding_names())
+    cls_o = make_class("RecO", log, mode, base=cls_s if sc.mode == "subclass" else None,
+                       collide=colliding_names(plain_operand=(sc.other != "proxy")))
+    cls_k = make_class("RecK", log, mode, collide=colliding_names(plain_operand=("operand" in sc.extras)))
     args = []
     if sc.other is not None:
         o = cls_o("O")
@@ -453,8 +550,17 @@ def measure_semantics():
         value = 5
     sem = {"inner": set(), "raw_inner": False, "actual_class": set(), "spoof": None, "meta": set(), "methods": set(),
            "ctor": False}
+    class Colliding:
+        """a student object with an attribute for every name the proxy itself uses"""
+        def __init__(self):
+            for n in colliding_names():
+                object.__setattr__(self, n, Plain())
+
+    class AnswersAll:
+        def __getattr__(self, name):
+            return 0
     sandbox = Plain()
-    subjects = [Plain(), WithValue(), 3, "s", [1]]
+    subjects = [Plain(), WithValue(), 3, "s", [1], Colliding(), AnswersAll()]
     try:
         proxies = [SR(x, 17, sandbox) for x in subjects]
         sem["ctor"] = all(type(p) is SR for p in proxies) and type(SR(subjects[0])) is SR
@@ -487,7 +593,7 @@ def measure_semantics():
                     sem["methods"].add(mname)
     # plain student values must not look like proxies to the helpers
     sem["plain_lacks"] = {a for a in ("__actual_class__", "_actual_value")
-                          if not any(hasattr(x, a) for x in subjects)}
+                          if not any(hasattr(x, a) for x in subjects[:5])}     # ordinary plain values
     return sem
 
 
@@ -499,7 +605,7 @@ def measure_len_fn():
     try:
         for mode in ("accept",):
             log = Log()
-            cls = make_class("RecL", log, mode)
+            cls = make_class("RecL", log, mode, collide=colliding_names(plain_operand=True))
             r = fn(cls("S"))
             if not (type(r) is int and r == 7 and [e[0] for e in log.entries] == ["__len__"]):
                 return False
